@@ -228,7 +228,7 @@ class Sym:
                         # forget stale partial knowledge about l
                         for key in [x for x in env if isinstance(x, tuple) and x[0] == l]:
                             del env[key]
-                        if fn.local_name(l) and l != 0:
+                        if fn.local_name(l) and l != 0 and l not in self.stateful_locals:
                             events = events + [("set", l, fn.local_name(l), val, b, span_line(st["s"]))]
                     else:
                         env = dict(env)
